@@ -338,6 +338,98 @@ func (g *c18Gen) generate(thorough bool, n int) {
 			jObj("property", jStr("geo.flat"), "vectorFlat", jObj("vector", jVec(1, 1), "operator", jStr("near"), "limit", jInt(10),
 				"filter", jObj("property", jStr("meta.count"), "integer", jObj("value", jInt(0), "operator", jStr("greaterThanOrEquals"))))))),
 			"select", jStrs("geo.name", "meta"), "limit", jInt(20)).JSON()))
+	// ---- unindexed properties holding integers of mixed width and signedness (what a standard
+	// MessagePack encoder writes: fixint, int8..int64 for negative, uint8..uint64 for non-negative values),
+	// floats, strings, nil next to them; then valid searches sorted by those properties
+	mixedVals := []*jv{jUintC(5), jUintC(127), jUintC(128), jUintC(200), jUintC(255), jUintC(256), jUintC(32767), jUintC(32768), jUintC(65535), jUintC(65536),
+		jUintC(1<<31 - 1), jUintC(1 << 31), jUintC(1<<32 - 1), jUintC(1 << 32), jUintC(1<<63 - 1), jUintC(1 << 63), jUintC(0),
+		jInt(-1), jInt(-32), jInt(-33), jInt(-128), jInt(-129), jInt(-32768), jInt(-32769), jInt(-(1 << 31)), jInt(-(1<<31) - 1), jInt(math.MinInt64),
+		jInt(100), jInt(300), jInt(70000), jInt64(5), jF64(1.5), jF32(2.5), jF64(200), jStr("seven"), jStr("200"), jNull(), jBool(true)}
+	mixedPoint := func(i int) *jv {
+		n := len(mixedVals)
+		p := jObj("_id", jStr(c18Id(0x200+i).String()), "vec", jVec(float32(i%7), float32(i%5)), "cat", jStr([]string{"a", "b"}[i%2]),
+			"stock", mixedVals[i%n], "alt", mixedVals[(i*7+3)%n], "nest", jObj("q", mixedVals[(i*11+5)%n]))
+		if i%9 == 4 {
+			p = jObj("_id", jStr(c18Id(0x200+i).String()), "vec", jVec(1, 1), "cat", jStr("a")) // the sort properties are missing
+		}
+		return p
+	}
+	mixedBatch := func(from, to int) *jv {
+		xs := []*jv{}
+		for i := from; i < to; i++ {
+			xs = append(xs, mixedPoint(i))
+		}
+		return jObj("points", jArr(xs...))
+	}
+	nMixed := len(mixedVals)
+	mixedIns := spec("mixed-ints:insert", "valid", "POST", "/v2/collections/mixed/points", "alice", ctM, mixedBatch(0, nMixed).Msgpack())
+	g.add(mixedIns)
+	upd := mixedBatch(0, nMixed)
+	for k, p := range upd.get("points").a { // rotate the values: every point changes the kind of its properties
+		if p.get("stock") != nil {
+			p.set("stock", mixedVals[(k+13)%nMixed]).set("alt", mixedVals[(k*5+1)%nMixed])
+		}
+	}
+	mixedUpd := spec("mixed-ints:update", "valid", "PUT", "/v2/collections/mixed/points", "alice", ctM, upd.Msgpack())
+	setupIns, setupUpd := mixedIns, mixedUpd
+	setupIns.Tag, setupUpd.Tag = "setup", "setup"
+	mixedUpd.Setup = []xspec{setupIns}
+	g.add(mixedUpd)
+	for k := 0; k < nMixed; k += 2 { // pairs of kinds, one small request each
+		g.add(spec(fmt.Sprintf("mixed-ints:insert-pair:%d", k), "valid", "POST", "/v2/collections/mixed/points", "alice", ctM, mixedBatch(k, min(k+2, nMixed)).Msgpack()))
+	}
+	sortOpt := func(prop string, desc bool) *jv { return jObj("property", jStr(prop), "descending", jBool(desc)) }
+	mixedQueries := []struct {
+		name string
+		q    *jv
+	}{
+		{"filter", jObj("property", jStr("cat"), "string", jObj("value", jStr("a"), "operator", jStr("equals")))},
+		{"filter-all", jObj("property", jStr("cat"), "string", jObj("value", jStr("0"), "operator", jStr("greaterThan")))},
+		{"ranking", jObj("property", jStr("vec"), "vectorVamana", jObj("vector", jVec(1, 2), "operator", jStr("near"), "searchSize", jInt(75), "limit", jInt(75)))},
+		{"ranking-filter", jObj("property", jStr("vec"), "vectorVamana", jObj("vector", jVec(3, 1), "operator", jStr("near"), "searchSize", jInt(75), "limit", jInt(50),
+			"filter", jObj("property", jStr("cat"), "string", jObj("value", jStr("b"), "operator", jStr("equals")))))},
+		{"ids-5-200", jObj("property", jStr("_id"), "stringArray", jObj("value", jStrs(c18Id(0x200).String(), c18Id(0x203).String()), "operator", jStr("containsAny")))},
+	}
+	mixedSorts := []struct {
+		name string
+		s    *jv
+		sel  *jv
+	}{
+		{"stock-asc", jArr(sortOpt("stock", false)), jStrs("stock")},
+		{"stock-desc", jArr(sortOpt("stock", true)), jStrs("stock", "alt")},
+		{"stock-alt", jArr(sortOpt("stock", false), sortOpt("alt", true)), jStrs("alt", "stock")},
+		{"alt-stock-desc", jArr(sortOpt("alt", true), sortOpt("stock", true)), jStrs("*")},
+		{"nested", jArr(sortOpt("nest.q", false), sortOpt("stock", false)), jStrs("nest", "stock")},
+		{"nested-leaf", jArr(sortOpt("nest.q", true)), jStrs("nest.q")},
+		{"not-selected", jArr(sortOpt("stock", false)), nil},
+		{"missing-prop", jArr(sortOpt("nosuch", false), sortOpt("alt", false)), jStrs("alt")},
+	}
+	for _, state := range []string{"inserted", "updated"} {
+		setup := []xspec{setupIns}
+		if state == "updated" {
+			setup = []xspec{setupIns, setupUpd}
+		}
+		for _, mq := range mixedQueries {
+			for k, ms := range mixedSorts {
+				req := jObj("query", mq.q, "sort", ms.s, "limit", jInt(100))
+				if ms.sel != nil {
+					req.set("select", ms.sel)
+				}
+				for e, ct := range []string{ctJ, ctM} {
+					if !thorough && (k+e)%2 == 1 && mq.name != "ids-5-200" && mq.name != "filter-all" {
+						continue
+					}
+					body := req.JSON()
+					if ct == ctM {
+						body = req.Msgpack()
+					}
+					sx := spec("mixed-ints:search:"+state+":"+mq.name+":"+ms.name+":"+ct[12:], "valid", "POST", "/v2/collections/mixed/points/search", "alice", ct, body)
+					sx.Setup = setup
+					g.add(sx)
+				}
+			}
+		}
+	}
 	// ---- designated requests of the confirmed defects
 	for _, d := range [][3]string{{"GET", "/v1/collections", ""}, {"GET", "/v1/collections/rich", ""},
 		{"POST", "/v1/collections/rich/points", `{"points":[{"vector":[1,2,3,4]}]}`}, {"PUT", "/v1/collections/rich/points", `{"points":[{"id":"00000000-0000-4000-8000-000000000001","vector":[1,2,3,4]}]}`},
@@ -558,8 +650,10 @@ func c18RunBatch(scratch string, batch int, specs []xspec, timeout time.Duration
 		}
 		res[last].died, res[last].done = true, true
 		skip = last + 1
-		if attempt > 50 {
-			return nil, nil, fmt.Errorf("c18 batch %d: too many crashes", batch)
+		if attempt >= 12 {
+			// the process keeps dying in this batch: the deaths recorded so far are the observation, the
+			// remaining exchanges of the batch are dropped (counted in the histogram)
+			break
 		}
 	}
 	return res, auxTerms, nil
@@ -625,7 +719,8 @@ func runC18(rc *runCtx) error {
 		for i, r := range br.res {
 			x := batches[b][i]
 			if !r.done {
-				return fmt.Errorf("c18: exchange %q has no result", x.Tag)
+				hist["dropped after repeated process deaths in its batch"]++
+				continue
 			}
 			if r.prefix == "" {
 				// the process died in a setup request of a designated sequence
